@@ -9,6 +9,7 @@ from .node import Node, _NodeMessage
 from .proto import ByteInterval_pb2, SymbolicExpression_pb2
 from .symbolicexpression import SymAddrAddr, SymAddrConst, SymbolicExpression
 from .util import (
+    DeserializationError,
     DictLike,
     DictWrapper,
     SetWrapper,
@@ -271,6 +272,13 @@ class ByteInterval(Node):
             uuid=uuid,
             blocks=(decode_block(b) for b in proto_interval.blocks),
         )
+        # The blocks are decoded (and cached) before the interval itself, so
+        # a block re-using the interval's UUID has not been noticed yet.
+        if ir.get_by_uuid(uuid) is not None:
+            raise DeserializationError(
+                "ByteInterval: UUID %s is also used by one of its blocks"
+                % uuid
+            )
         result._add_to_uuid_cache(ir._local_uuid_cache)
         # We store the interval and IR here so we can use it later, when
         # _decode_symbolic_expressions is called.
